@@ -292,6 +292,36 @@ def run(ctx):
            '' if ok else 'a value without a decomposition makes the strategy answer None ("has no unitary") instead of NotImplemented ("ask the next strategy"): for more than '
            'four qubits the decompose strategy runs before _unitary_, so a 5-qubit MatrixGate can no longer be applied although it has a unitary', pm.rel, arms[0].lineno)
 
+    # same-name delegation hands on every argument
+    ctx.decided.append('C04.d3 a method that delegates to the same-named method of another object uses every one of its own parameters (a wrapper that accepts an option '
+                       'and does not pass it on answers for the default)')
+    ctx.rule('C04.d3', 'same-name delegation: wherever the body of C.m calls x.m(...) on another object, each parameter of C.m is read in the body', floor=90, style='COH')
+    DELEGATION_EXEMPT = {
+        ('cirq._compat.DeprecatedModuleFinder', 'find_spec'): 'importlib finder signature; path/target are irrelevant to the aliasing finder',
+        ('cirq.qis.clifford_tableau.CliffordTableau', 'copy'): 'no scratch buffers: deep_copy_buffers has nothing to select',
+        ('cirq.sim.clifford.stabilizer_state_ch_form.StabilizerStateChForm', 'copy'): 'no scratch buffers: deep_copy_buffers has nothing to select',
+    }
+    for dc in sorted(repo.classes.values(), key=lambda c: c.qual):
+        if '.testing.' in dc.qual or '.contrib.' in dc.qual or '/cloud/' in dc.mod.rel:
+            continue
+        for mn, fn in dc.methods.items():
+            params = [a.arg for a in fn.args.args[1:] + fn.args.kwonlyargs]
+            if not params:
+                continue
+            calls = [c for c in ast.walk(fn) if isinstance(c, ast.Call) and isinstance(c.func, ast.Attribute) and c.func.attr == mn
+                     and not (isinstance(c.func.value, ast.Name) and c.func.value.id == 'self')
+                     and not (isinstance(c.func.value, ast.Call) and call_name(c.func.value) == 'super')]
+            if not calls:
+                continue
+            key = f'{dc.qual}.{mn}:delegates'
+            if (dc.qual, mn) in DELEGATION_EXEMPT:
+                ctx.ob('C04.d3', key, True, 'listed: ' + DELEGATION_EXEMPT[(dc.qual, mn)], dc.mod.rel, fn.lineno)
+                continue
+            used = {x.id for st in fn.body for x in ast.walk(st) if isinstance(x, ast.Name)}
+            miss = [p_ for p_ in params if p_ not in used]
+            ctx.ob('C04.d3', key, not miss, '' if not miss else f'{dc.name}.{mn} delegates to `{ast.unparse(calls[0].func)}` but never looks at its own parameter(s) {miss}',
+                   dc.mod.rel, fn.lineno)
+
     # ------------------------------------------------------------------ C04.a
     ctx.rule('C04.a', 'has/does coherence by construction of guards: (i) _has_X_ literally True => _X_ has no give-up return; (ii) literally False => '
              'the class defines no _X_; (iii) _X_ gives up under a parameterization test => _has_X_ is false under parameterization; '
